@@ -66,6 +66,25 @@ fn main() {
             let start = Key::new(q["start"].as_str().unwrap()).unwrap();
             println!("{}", d.default_of(&start));
         }
+        Some("direction") => {
+            // CLDR text direction of locale names (one per line), straight from icu_locid_transform
+            let ld = icu_locid_transform::LocaleDirectionality::new();
+            let stdin = std::io::stdin();
+            for line in stdin.lock().lines() {
+                let line = match line { Ok(l) => l, Err(_) => break };
+                let name = line.trim();
+                if name.is_empty() { continue; }
+                let r = match name.parse::<icu_locid::LanguageIdentifier>() {
+                    Ok(id) => match ld.get(&id) {
+                        Some(icu_locid_transform::Direction::LeftToRight) => "LeftToRight",
+                        Some(icu_locid_transform::Direction::RightToLeft) => "RightToLeft",
+                        _ => "Auto",
+                    },
+                    Err(_) => "invalid",
+                };
+                println!("{}\t{}", name, r);
+            }
+        }
         Some("cldr") => {
             // oracle for "what CLDR assigns": {"locale","rule","n"} per line -> category (icu_plurals directly)
             use icu_plurals::{PluralRuleType, PluralRules};
